@@ -245,6 +245,12 @@ def _sym_reversed(x):
     return builtins.reversed(x)
 
 
+def _sym_list(*a):
+    if a and hasattr(a[0], "pyvc_list"):
+        return a[0].pyvc_list()
+    return builtins.list(*a)
+
+
 def _noop_print(*a, **k):
     return None
 
@@ -264,6 +270,7 @@ SYM_BUILTINS = {
     "isinstance": _sym_isinstance,
     "range": _sym_range,
     "reversed": _sym_reversed,
+    "list": _sym_list,
     "print": _noop_print,
 }
 
@@ -430,9 +437,13 @@ class Interp:
         load = ast.copy_location(_as_load(s.target), s.target)
         cur_v = self.eval(load, env, mod)
         rhs = self.eval(s.value, env, mod)
-        if isinstance(s.op, ast.Add) and isinstance(cur_v, list):
-            cur_v += rhs  # in-place list extension (aliasing preserved)
-            self.assign(s.target, cur_v, env, mod)
+        # exact in-place semantics (`d |= x`, `xs += ys` mutate the object; immutable values rebind)
+        iop = _INPLACE.get(type(s.op))
+        if iop is None:
+            raise Undecided(f"augmented assignment operator {type(s.op).__name__}")
+        if isinstance(cur_v, (list, dict, set)):
+            self.store_hook(cur_v, "inplace", None)
+            self.assign(s.target, iop(cur_v, rhs), env, mod)
             return
         self.assign(s.target, _binop(s.op, cur_v, rhs), env, mod)
 
@@ -902,6 +913,21 @@ def _iterate(v):
         raise TypeError("iteration over a 0-d array")
     return v
 
+
+import operator as _op  # noqa: E402
+
+_INPLACE = {
+    ast.Add: _op.iadd,
+    ast.Sub: _op.isub,
+    ast.Mult: _op.imul,
+    ast.Div: _op.itruediv,
+    ast.FloorDiv: _op.ifloordiv,
+    ast.Mod: _op.imod,
+    ast.Pow: _op.ipow,
+    ast.BitAnd: _op.iand,
+    ast.BitOr: _op.ior,
+    ast.BitXor: _op.ixor,
+}
 
 _BIN = {
     ast.Add: lambda a, b: a + b,
